@@ -32,8 +32,10 @@ class Names(object):
         # has one spelling throughout a history
         self.upper_consumers = [mkuuid(rng).upper() for _ in range(2)]
         self.aggs = [mkuuid(rng) for _ in range(3)]
-        self.projects = ['pj0', 'pj1', 'pj2']
-        self.users = ['us0', 'us1', 'us2']
+        # ('both' is a project id AND a user id: the two are separate
+        # name spaces)
+        self.projects = ['pj0', 'pj1', 'pj2', 'both']
+        self.users = ['us0', 'us1', 'us2', 'both']
         self.ctypes = ['INSTANCE', 'MIGRATION', 'CT_X']
         self.classes = STD_CLASSES + CUSTOM_CLASSES
         self.traits = STD_TRAITS + CUSTOM_TRAITS
